@@ -26,6 +26,19 @@ def r2(run):
         chain.append(x)
         x = strip(x[2][0])
     names = [c[1].fn.split("::")[-1] for c in chain]
+    if x[0] == "phi":
+        # `if limit == Some(0) { Box::new(iter::empty()) } else { Box::new(self.iter_frames(..)) }`: every alternative of the source
+        # is the raw scan or the empty iterator (which yields nothing whatever the adaptors do)
+        alts = []
+        for o in q.origins(x):
+            o = strip(o)
+            while o[0] == "cast" or (o[0] == "call" and o[1].fn.endswith(("Box::<T>::new", "IntoIterator::into_iter")) and o[2]):
+                o = strip(o[1] if o[0] == "cast" else o[2][0])
+            alts.append(o)
+        scans = [o for o in alts if o[0] == "call" and o[1].fn == C.ITER_FRAMES]
+        rest = [o for o in alts if not (o[0] == "call" and o[1].fn in (C.ITER_FRAMES, "core::iter::sources::empty::empty"))]
+        if len(scans) == 1 and not rest:
+            x = scans[0]
     src_ok = x[0] == "call" and x[1].fn == C.ITER_FRAMES
     run.ob("%s|adaptors" % C.READ_SYNC, names == ["take", "filter"] and src_ok, b.sp,
            "read_sync = iter_frames(..).filter(expiry).take(limit): expired frames are dropped BEFORE the limit is applied (got %s over %s)" % (
